@@ -522,6 +522,8 @@ func (e *Engine) boundedComplements(prop string, thorough bool, res *thoroughRes
 	if prop == "C08" || prop == "C01" {
 		// the inductive cache invariant and the overlap search (B-tree enumeration) are not under contract: this
 		// stand-in runs on every tier of C08 and of C01 (for the "start <= key" half of routing)
+		// (under C01 the harness checks what routing relies on - contents, eviction, lookups - and leaves the dead marks to C08)
+		e.boundedProp = prop
 		report(e.boundedOverlay("c08-cache", "c08_cache_test.go.txt", ".", "TestBoundedC08",
 			"every sequence of up to 3 put/del operations over 36 regions (3 tables, one of them namespaced, two prefix-related x 6 ranges over keys \"\",a,b x 2 ids) on the real keyRegionCache against a brute-force interval model; 18 lookups after every step against brute-force containment"),
 			"c08-cache", "the location cache disagrees with the brute-force interval model")
@@ -557,7 +559,7 @@ func (e *Engine) boundedOverlay(name, file, pkgDir, pattern, bound string) map[s
 	writeJSON(ovf, ov)
 	cmd := exec.Command("go", "test", "-overlay", ovf, "-vet=off", "-count=1", "-timeout", "300s", "-v", "-run", pattern, "./"+pkgDir+"/")
 	cmd.Dir = e.repo
-	cmd.Env = append(os.Environ(), "GOFLAGS=-mod=mod", "GOPROXY=off", "GOSUMDB=off", "GOTOOLCHAIN=local")
+	cmd.Env = append(os.Environ(), "GOFLAGS=-mod=mod", "GOPROXY=off", "GOSUMDB=off", "GOTOOLCHAIN=local", "VERIF_BOUNDED_PROP="+e.boundedProp)
 	o, err := cmd.CombinedOutput()
 	text := string(o)
 	switch {
